@@ -41,13 +41,31 @@ theorem accept_eq (f : Facts) (issuer clientID : String) (keys : List Key) (now 
   cases sigStage f keys t <;> cases claimsStage f issuer clientID now t <;> rfl
 
 /-! ## from the Go values the translated code works on to the model's token -/
+/-- a NumericDate in whole seconds as `numericDateSeconds` reads it: saturated at ±2^62 (fix F20) -/
+def sat (n : Int) : Int := if n ≥ 4611686018427387904 then 4611686018427387904 else if n ≤ -4611686018427387904 then -4611686018427387904 else n
+
+theorem numericDateSeconds_eq (x : Go.F64) : Code.numericDateSeconds x = sat x.trunc := by
+  unfold Code.numericDateSeconds sat Go.f64GeNonneg Go.f64LeNonpos Code.maxNumericDate Go.int64
+  by_cases h1 : x.trunc ≥ 4611686018427387904
+  · simp [h1]
+  · by_cases h2 : x.trunc ≤ -4611686018427387904
+    · simp [h1, h2]
+    · simp [h1, h2]
+
+/-- inside the range nothing changes -/
+theorem sat_id (n : Int) (h : -4611686018427387904 < n ∧ n < 4611686018427387904) : sat n = n := by
+  unfold sat; split
+  · omega
+  · split <;> omega
+
 def absItem : Go.Any → J
   | .str s => .str (String.ofList s)
   | _ => .other
-/-- a decoded JSON value as the model sees it; numbers become whole seconds (`int64(x)`) scaled to nanoseconds -/
+/-- a decoded JSON value as the model sees it; numbers become whole seconds (`numericDateSeconds(x)`: `int64(x)`, saturated at
+    ±2^62) scaled to nanoseconds -/
 def absJ : Go.Any → J
   | .str s => .str (String.ofList s)
-  | .num x => .num (x.trunc * 1000000000)
+  | .num x => .num (sat x.trunc * 1000000000)
   | .arr xs => .arr (xs.map absItem)
   | _ => .other
 def absField (m : Go.Obj) (k : Go.Str) : Option J := (m.find? (fun p => p.1 == k)).map (fun p => absJ p.2)
@@ -72,26 +90,26 @@ theorem verifyIssuer_isSome (a b : Go.Str) : (Code.verifyIssuer a b).isSome = (a
   unfold Code.verifyIssuer; cases h : (a != b) <;> simp
 
 theorem verifyExpiration_isSome (now : Int) (x : Go.F64) :
-    (Code.verifyExpiration now x).isSome = decide (x.trunc * 1000000000 + Code.ClockSkewToleranceFuture < now) := by
+    (Code.verifyExpiration now x).isSome = decide (sat x.trunc * 1000000000 + Code.ClockSkewToleranceFuture < now) := by
   unfold Code.verifyExpiration Code.verifyTimeConstraint
-  simp only [Go.timeAfter, Go.timeAdd, Go.timeUnix, Go.int64, if_true, Int.add_zero]
-  by_cases h : x.trunc * 1000000000 + Code.ClockSkewToleranceFuture < now <;> simp [h]
+  simp only [Go.timeAfter, Go.timeAdd, Go.timeUnix, numericDateSeconds_eq, if_true, Int.add_zero]
+  by_cases h : sat x.trunc * 1000000000 + Code.ClockSkewToleranceFuture < now <;> simp [h]
 
 theorem notBefore_isSome (now : Int) (x : Go.F64) (name : Go.Str) :
-    (Code.verifyTimeConstraint now x name false).isSome = decide (now < x.trunc * 1000000000 - Code.ClockSkewTolerancePast) := by
+    (Code.verifyTimeConstraint now x name false).isSome = decide (now < sat x.trunc * 1000000000 - Code.ClockSkewTolerancePast) := by
   unfold Code.verifyTimeConstraint
-  simp only [Go.timeBefore, Go.timeAdd, Go.timeUnix, Go.int64, Bool.false_eq_true, if_false, Int.add_zero]
-  have e : x.trunc * 1000000000 + -Code.ClockSkewTolerancePast = x.trunc * 1000000000 - Code.ClockSkewTolerancePast := by omega
+  simp only [Go.timeBefore, Go.timeAdd, Go.timeUnix, numericDateSeconds_eq, Bool.false_eq_true, if_false, Int.add_zero]
+  have e : sat x.trunc * 1000000000 + -Code.ClockSkewTolerancePast = sat x.trunc * 1000000000 - Code.ClockSkewTolerancePast := by omega
   rw [e]
-  by_cases h : now < x.trunc * 1000000000 - Code.ClockSkewTolerancePast
+  by_cases h : now < sat x.trunc * 1000000000 - Code.ClockSkewTolerancePast
   · simp only [h, decide_true, if_true]; split <;> rfl
   · simp [h]
 
 theorem verifyIssuedAt_isSome (now : Int) (x : Go.F64) :
-    (Code.verifyIssuedAt now x).isSome = decide (now < x.trunc * 1000000000 - Code.ClockSkewTolerancePast) := by
+    (Code.verifyIssuedAt now x).isSome = decide (now < sat x.trunc * 1000000000 - Code.ClockSkewTolerancePast) := by
   unfold Code.verifyIssuedAt; exact notBefore_isSome ..
 theorem verifyNotBefore_isSome (now : Int) (x : Go.F64) :
-    (Code.verifyNotBefore now x).isSome = decide (now < x.trunc * 1000000000 - Code.ClockSkewTolerancePast) := by
+    (Code.verifyNotBefore now x).isSome = decide (now < sat x.trunc * 1000000000 - Code.ClockSkewTolerancePast) := by
   unfold Code.verifyNotBefore; exact notBefore_isSome ..
 
 /-- a `for … range` whose body sets a flag and breaks on the first hit computes `any` -/
@@ -188,7 +206,7 @@ theorem asStr_field (m : Go.Obj) (k : Go.Str) :
 
 theorem asNum_field (m : Go.Obj) (k : Go.Str) :
     asNum (absField m k) =
-      if (Go.asF64 (Go.mapGet m k)).2 then some ((Go.asF64 (Go.mapGet m k)).1.trunc * 1000000000) else none := by
+      if (Go.asF64 (Go.mapGet m k)).2 then some (sat (Go.asF64 (Go.mapGet m k)).1.trunc * 1000000000) else none := by
   unfold Go.mapGet absField
   cases h : m.find? (fun p => p.1 == k) with
   | none => simp [Go.asF64, asNum]
@@ -200,7 +218,7 @@ theorem field_mapGet2 (m : Go.Obj) (k : Go.Str) :
   cases h : m.find? (fun p => p.1 == k) <;> simp
 
 theorem nbfClass_absJ (v : Go.Any) :
-    nbfClass (some (absJ v)) = if (Go.asF64 v).2 then .num ((Go.asF64 v).1.trunc * 1000000000) else .wrongType := by
+    nbfClass (some (absJ v)) = if (Go.asF64 v).2 then .num (sat (Go.asF64 v).1.trunc * 1000000000) else .wrongType := by
   cases v <;> simp [Go.asF64, nbfClass, absJ]
 
 /-- the last step of `JWT.Verify` -/
@@ -292,10 +310,10 @@ theorem JWT_Verify_refines (now : Int) (j : Go.JWT) (iss cid : Go.Str) :
             (some ['m','i','s','s','i','n','g',' ','o','r',' ','e','m','p','t','y',' ','\'','s','u','b','\'',' ','c','l','a','i','m'] : Go.Err)
             else none) = SB at hsub' ⊢
         have hA := verifyAudience_isNone audV cid
-        have hE : (Code.verifyExpiration now expX).isNone = !decide (now > expX.trunc * 1000000000 + codeFacts.skewFuture) := by
+        have hE : (Code.verifyExpiration now expX).isNone = !decide (now > sat expX.trunc * 1000000000 + codeFacts.skewFuture) := by
           have := verifyExpiration_isSome now expX
           cases hv : Code.verifyExpiration now expX <;> simp [hv, codeFacts] at this ⊢ <;> first | omega | exact decide_eq_false (by omega) | exact decide_eq_true (by omega)
-        have hT : (Code.verifyIssuedAt now iatX).isNone = !decide (now < iatX.trunc * 1000000000 - codeFacts.skewPast) := by
+        have hT : (Code.verifyIssuedAt now iatX).isNone = !decide (now < sat iatX.trunc * 1000000000 - codeFacts.skewPast) := by
           have := verifyIssuedAt_isSome now iatX
           cases hv : Code.verifyIssuedAt now iatX <;> simp [hv, codeFacts] at this ⊢ <;> first | omega | exact decide_eq_false (by omega) | exact decide_eq_true (by omega)
         have hN : codeFacts.nbfTypeChecked = true := rfl
@@ -310,7 +328,7 @@ theorem JWT_Verify_refines (now : Int) (j : Go.JWT) (iss cid : Go.Str) :
               · cases nbfOk
                 · simp [ok1, isOk_ite, hi, hA, hE, hT, nbfClass, hS, hsub']
                 · rcases hx : Go.asF64 nbfV with ⟨nbfX, nbfXok⟩
-                  have hB : (Code.verifyNotBefore now nbfX).isNone = !decide (now < nbfX.trunc * 1000000000 - codeFacts.skewPast) := by
+                  have hB : (Code.verifyNotBefore now nbfX).isNone = !decide (now < sat nbfX.trunc * 1000000000 - codeFacts.skewPast) := by
                     have := verifyNotBefore_isSome now nbfX
                     cases hv : Code.verifyNotBefore now nbfX <;> simp [hv, codeFacts] at this ⊢ <;> first | omega | exact decide_eq_false (by omega) | exact decide_eq_true (by omega)
                   cases nbfXok
